@@ -21,6 +21,7 @@ package querylog
 //vx:stub (*os.File).Close vxC20Close
 //vx:stub (*os.File).Name vxC20Name
 //vx:stub github.com/AdguardTeam/AdGuardHome/internal/querylog.readQLogTimestamp vxC20Timestamp
+//vx:native
 //vx:entry vxC20ReadAll reach=one-file,two-files,empty-file,rebuffered,eof
 //vx:entry vxC20FileSeek reach=found,not-found,too-early,too-late,probe-window-inside,rebuffered-after-seek
 //vx:entry vxC20ReaderSeek reach=found-new,found-old,not-found-new,not-found-old,before-all,after-all,between-files
@@ -196,6 +197,8 @@ func vxC20Reads(q *qLogFile) int { return vxC20Model(q.file).reads }
 func vxC20ReadRestFile(q *qLogFile, l *vxC20Layout, j int) {
 	for i := j; i >= 0; i-- {
 		line, err := q.ReadNext()
+		vx.Note(line)
+		vx.Note(err != nil)
 		vx.Assert(err == nil, "a stored line is readable")
 		vx.Assert(line == l.line[i], "reads return the stored lines, complete, in reverse order, each once")
 	}
@@ -305,6 +308,9 @@ func vxC20FileSeek() {
 
 	vx.MaxSteps(2_000_000, "the timestamp search terminates")
 	pos, depth, err := q.seekTS(context.Background(), nil, target)
+	vx.Note(pos)
+	vx.Note(depth)
+	vx.Note(err != nil)
 
 	// ceil(log2(size)) + 3 probes at most ("never loops").
 	lg := 0
@@ -369,6 +375,7 @@ func vxC20ReaderSeek() {
 
 	vx.MaxSteps(4_000_000, "the timestamp search terminates")
 	err := s.r.seekTS(context.Background(), target)
+	vx.Note(err != nil)
 	s.afterSeek(target, err)
 }
 
